@@ -102,9 +102,10 @@ def size_case(case, rec, ssj, tables_cache):
             rec.add('raised', '%s: %s' % (type(e).__name__, str(e)[:80]))
             return {'keep': 0, 'drop': 0}
         kept_all = set(zip(df['l_id'].tolist(), df['r_id'].tolist()))
-        # a pair with exactly one zero-token side can never reach a positive threshold: must be dropped
+        # a pair with exactly one zero-token side has best attainable similarity 0: it must be dropped
+        # whenever 0 is more than 1e-4 below the threshold (the tolerance the property grants)
         for (a, b) in kept_all:
-            if (a <= 0) != (b <= 0):
+            if t > 1e-4 and (a <= 0) != (b <= 0):
                 rec.violation('size_tight', 'SizeFilter(%s,%r) keeps a pair of a zero-token value and a value '
                               'with %d tokens (best attainable similarity 0)' % (m, t, max(a, b)), case=case)
                 break
@@ -306,7 +307,7 @@ def subset_case(case, rec, ssj):
         elif m == 'OVERLAP':
             bad = False
         else:
-            bad = (a == 0 or b == 0) or best_sim(m, a, b) < t - 1e-4
+            bad = ((a == 0 or b == 0) and t > 1e-4) or (a > 0 and b > 0 and best_sim(m, a, b) < t - 1e-4)
         if bad:
             rec.violation('size_tight', '%s: SizeFilter.filter_tables keeps (%r, %r) with token counts (%d,%d)'
                           % (fspec, lk, rk, a, b), case=case)
